@@ -620,3 +620,30 @@ def hand_over_switches_both_sides(ctx):
                           f'`{src(x)}` does not move the counter by exactly one: the suppression of member callbacks is never entered or never left', fi)
     if n < 2:
         raise AnchorMissing('insideRW counter updates not found')
+
+
+@rule('C18.R9', min_instances=3)
+def struct_members_are_paired_by_name(ctx):
+    """StructParam: the value of a struct parameter is a dict keyed by member name, the member parameters are paramdict keyed by
+    the same names - they are paired through the key (`value[membername]`).  `zip(self.paramdict.values(), value.values())`
+    pairs them by POSITION: a struct value whose keys come in another order than the members were declared (a client may send
+    them in any order, validate keeps that order) puts each value into the wrong member parameter"""
+    m = ctx.m
+    ci = m.classes.get('frappy.extparams.StructParam')
+    if ci is None:
+        raise AnchorMissing('frappy.extparams.StructParam not found')
+    n = 0
+    for name, f in sorted(ci.methods.items()):
+        n += 1
+        ctx.analysed(f)
+        hits = []
+        for c in ast.walk(f.node):
+            if isinstance(c, ast.Call) and isinstance(c.func, ast.Name) and c.func.id == 'zip' and len(c.args) >= 2:
+                vals = [a for a in c.args if isinstance(a, ast.Call) and call_attr(a) in ('values', 'items', 'keys')]
+                if len(vals) >= 2 and any('paramdict' in src(a) for a in vals):
+                    hits.append(c)
+        ctx.check(not hits, f'{f.qualname}:members paired with their parameters by name', hits[0] if hits else f.node, 'no positional pairing of two mappings',
+                  f'`{src(hits[0]) if hits else ""}` pairs the member parameters with the entries of another mapping by position: the orders need not agree '
+                  '(the keys of a struct value come in the order the client sent them)', f)
+    if n < 3:
+        raise AnchorMissing('methods of StructParam not found')
